@@ -32,10 +32,10 @@ def run(ctx):
     r = vlib.tlc_expect_violation("Watcher6", "Watcher6_twoloads.cfg", "ToldIffWrites", workers=2)
     ctx.add_tlc("negative control: reloaded() answers from one load of the id and remembers a second one (a rewrite in between is never reported)", r, negative=True)
     sim = 2500 if thorough else 350
-    suite = [("W3", 4, None, 6000), ("W3", 7, sim, None), ("W4", 5, None, 5000), ("W4", 7, sim, None), ("W4r", 7, None, 6000, "KeepTwoPasses"), ("W4t", 6, None, 6000, "KeepStatic"), ("W4y", 7, None, 6000, "KeepReReg"), ("W8", 5, None, 8000, "KeepEnh"), ("W6", 6, sim, None),
+    suite = [("W3", 4, None, 6000), ("W4e", 6, None, None, "KeepTwoPasses"), ("W3s", 5, None, 1200, "KeepBatch2"), ("W3", 7, sim, None), ("W4", 5, None, 5000), ("W4", 7, sim, None), ("W4r", 7, None, 6000, "KeepTwoPasses"), ("W4t", 6, None, 6000, "KeepStatic"), ("W4y", 7, None, 6000, "KeepReReg"), ("W8", 5, None, 8000, "KeepEnh"), ("W6", 6, sim, None),
              ("W5", 6, sim // 2, None), ("W9", 5, sim // 2, None)]
     if thorough:
-        suite += [("W3", 5, None, 40000)]
+        suite += [("W3", 5, None, 40000), ("W4e", 7, None, 4000, "KeepTwoPasses")]
     hotcommon.run_suite(ctx, suite, hotcommon.classify_other("C06"))
     hotcommon.pass_binding_demo(ctx)
     # precision across caches and threads: an entry read through ANOTHER cache (or on a helper thread) is not a
